@@ -38,6 +38,13 @@ SEEDS = {
  'C03-2': ('/tmp/wt_C03', 2, 'C03', 'a passive holder plus an affiliate that buys and sells out at a loss within 30 days', {'C03': ['flag-overwritten']}, 'caught after rule R3f (who may write the over-applied marker) was added'),
  'C15-1': ('/tmp/wt_C15', 1, 'C15', 'a split inside the after-window and an affiliate with zero shares at the split that buys afterwards', {'C15': ['split-factor-recorded-unconditionally']}, 'caught after R15d was strengthened (factor update unconditional)'),
  'C15-2': ('/tmp/wt_C15', 2, 'C15', 'a split between a superficial-loss sale and the repurchase, by an affiliate holding nothing in between', {'C15': ['split-arm-leaves-cost-base-and-gain-untouched'], 'C01': ['cost-base-changed-by-buy-sell-roc-sfla-only']}, ''),
+
+ 'C10-1': ('/tmp/wt_C10', 1, 'C10', '--summarize-annual-gains and a summarised year whose gains net to exactly zero', {'C10': ['one-sale-per-summarised-year']}, 'caught after rule R10e (one synthetic sale per listed year) was added'),
+ 'C10-2': ('/tmp/wt_C10', 2, 'C10', 'two superficial-loss sales after the summary date whose windows both reach into the summary range, with a row between the two window starts', {'C10': ['first-later-loss-sets-the-boundary']}, 'caught after rule R10f (the forward scan stops at the first later loss) was added'),
+ 'C17-1': ('/tmp/wt_C17', 1, 'C17', 'an opening position via --symbol-base and a first transaction by a non-default / registered affiliate', {'C17': ['nothing-recorded-before-the-skip-filters']}, 'caught after rule R17e (no state update before the skip filters) was added'),
+ 'C17-2': ('/tmp/wt_C17', 2, 'C17', 'a year whose every day totals $0.00', {'C17': ['anchor-lost:yearly-maximum function']}, 'reported as a lost anchor only (the yearly function was rewritten without the year->day map)'),
+ 'C19-1': ('/tmp/wt_C19', 1, 'C19', 'any option-exercise confirmation (all sell-to-cover fields pre-filled)', {'C19': ['benefit-with-sold-shares-is-always-matched']}, 'caught after rule R19e (matching skipped only when no shares were sold) was added'),
+ 'C19-2': ('/tmp/wt_C19', 2, 'C19', 'exactly one Sell in the five-day window with a share count different from the sold shares', {'C19': ['returned-set-comes-from-the-filtered-sets']}, 'caught after rule R19f (returned set comes from the share-count-filtered collection) was added'),
 }
 VERIF = os.path.dirname(os.path.dirname(os.path.abspath(__file__)))
 def main(ids):
